@@ -219,13 +219,18 @@ func (w *World) ApplyAPI(call string) error {
 			}
 		}
 	case "storm":
-		// many events in a row: the colour of a tag is changed n times
+		// many events in a row: a tag is added and deleted again n times (two events each, delivered at once -
+		// updates of an existing tag are collected and signalled once a second)
 		name, ns, _ := strings.Cut(arg, "=")
 		n, _ := strconv.Atoi(ns)
 		done := make(chan error, 1)
 		go func() {
 			for i := 0; i < n; i++ {
-				if err := w.Mgr.UpdateTag(name, manager.UpdateTagOperationUpdateColor(fmt.Sprintf("#%06x", i+1))); err != nil {
+				if err := w.Mgr.AddTag(name, "#123456", "cport:9"); err != nil {
+					done <- err
+					return
+				}
+				if err := w.Mgr.DelTag(name); err != nil {
 					done <- err
 					return
 				}
@@ -239,7 +244,7 @@ func (w *World) ApplyAPI(call string) error {
 			}
 		case <-time.After(30 * time.Second):
 			w.Wedged = true
-			return fmt.Errorf("%w: %d colour updates in a row did not return within 30 s (the service loop does not take new work)", ErrJobStuck, n)
+			return fmt.Errorf("%w: %d add/delete cycles in a row did not return within 30 s (the service loop does not take new work)", ErrJobStuck, n)
 		}
 	case "restart":
 		if err := w.Restart(); err != nil {
